@@ -63,6 +63,12 @@ def exec_text(task, cd):
         cd.write({'c.case': task['text']})
         path = None
         argv = ['c.case']
+        import zlib
+        if zlib.crc32(task['text'].encode('utf-8', 'surrogateescape')) % 3 == 0:
+            # the case file is named by a relative path that leads OUT of the current directory
+            cwd = os.path.join(cd.home, 'elsewhere')
+            os.makedirs(cwd, exist_ok=True)
+            argv = ['../c.case']
     try:
         r = inproc.run_main(argv, cd, cwd=cwd)
     finally:
